@@ -64,6 +64,7 @@ func runC04(c *core.Ctx) {
 	c.Rule("R1a", "the in-place Remove of the interface{} stream returns the receiver itself, so receiver and result cannot differ", 1)
 	c.Rule("R1b", "SortByIndex: a Clone of the receiver is taken before the in-place sort, the clone is stored back into the receiver after it on every path, and the returned header is the pre-sort one", 2)
 	c.Rule("R2", "every collection returned by an operation is the receiver/argument itself or fresh storage: it never shares a backing array/map with another object (ToArray/Keys/Values/Clone: fresh)", 60)
+	c.Rule("R4", "no operation assigns into a map that may be nil: every map written by the Set family comes from make / a map literal / a duplication primitive that returns a non-nil map on every path", 1)
 	c.Rule("R3", "SimpleHTTP updates its interceptor list only by assigning the result of a persistent stream operation or a new empty stream; it never calls an in-place mutator on it", 3)
 	ei := core.ComputeEffects(p)
 	ext := map[string]bool{}
@@ -122,6 +123,26 @@ func runC04(c *core.Ctx) {
 				}
 			}
 		}
+	}
+	// R4: assignments into maps
+	{
+		nMU := 0
+		var keysSeen = map[string]int{}
+		for _, f := range p.Funcs {
+			if f.Pkg != p.Fpgo || ei.Of[f] == nil {
+				continue
+			}
+			core.Instrs(f, func(ins ssa.Instruction) {
+				if _, isMU := ins.(*ssa.MapUpdate); isMU {
+					nMU++
+				}
+			})
+			for _, s := range ei.Of[f].NilMapWrites {
+				keysSeen[core.FuncName(f)]++
+				c.Fail("R4", fmt.Sprintf("%s/nil-map-write#%d", core.FuncName(f), keysSeen[core.FuncName(f)]), p.InstrPos(s.Instr), s.What+" - the map may be nil there ("+s.Target.Describe(f)+"): assignment to an entry of a nil map panics instead of returning the prescribed collection")
+			}
+		}
+		c.Check(nMU >= 10, "R4", "scan", "fp.go, stream*.go", fmt.Sprintf("%d map assignments in the package, none into a map that may be nil (nil constants, never-assigned map variables and callee results tracked through the effect summaries)", nMU), fmt.Sprintf("only %d map assignments found: the scan no longer sees the collection code", nMU))
 	}
 	// R1a
 	if m := p.Method(p.Fpgo, "StreamForInterfaceDef", "Remove"); m != nil {
